@@ -529,6 +529,8 @@ def _gen_parse_op(rng, obj_i, cfg, role, faulty):
             op["src"] = {"reads": [rng.randint(1, 5) for _ in range(rng.randint(0, 5))], "rest": rng.choice([1, 7, 1 << 30])}
     elif r < 0.4:
         op = {"op": "frag", "obj": obj_i, "doc": doc, "container": rng.choice(FRAG_CONTAINERS)}
+        if rng.random() < 0.06:
+            op["container"] = None      # documented as "default to div"; whatever it does, it must not depend on history
     else:
         op = {"op": "parse", "obj": obj_i, "doc": doc}
     if rng.random() < 0.15:
@@ -1030,7 +1032,7 @@ def _simpler_ops(op):
         o = dict(op)
         del o["scripting"]
         yield o
-    if op["op"] == "frag" and op["container"] != "div":
+    if op["op"] == "frag" and op["container"] not in ("div", None):
         yield dict(op, container="div")
     if op.get("chunk") not in (None, 10240):
         yield dict(op, chunk=10240)
